@@ -97,6 +97,17 @@ def rule_typecheck_bounds(repo):
 RULES.append(rule_typecheck_bounds)
 
 
+def rule_operand_types_intact(repo):
+    """the emitter decides padding / size casts of zext, trunc, sext and reductions from the operand's type next to the result's
+    type: the type checker must re-size only fresh copies of a type object, never the operand's own (a zext whose operand took
+    the target width is emitted as the bare operand).  Shared with C05 (R-C05-type-alias)."""
+    from rules.c05 import rule_type_objects
+    return rule_type_objects(repo)
+
+
+RULES.append(rule_operand_types_intact)
+
+
 def rule_param_record(repo):
     """two instances share one emitted module iff their names are equal; the name is built from the recorded construct
     arguments, so the record must hold what construct() was really called with (set_param included).  Shared with C13
